@@ -10,7 +10,7 @@ from props.C06 import describe, rules
 
 REQUIRED_THEOREMS = ['Usid.C19.sidpy_coords', 'Usid.C19.image_pixels', 'Usid.C19.array_rejected_before_file',
                      'Usid.C19.array_valid_iff', 'Usid.C19.array_layout', 'Usid.C19.unfixed_reshape_counterexample']
-RULE = ('three families. ARRAY: generator datasets through ArrayTranslator as numpy or dask arrays, dimension lists given '
+RULE = ('[also: dimension / axis values that are not increasing, lazy inputs in several chunks, dtype= / compression= keyword arguments, verbose=True] three families. ARRAY: generator datasets through ArrayTranslator as numpy or dask arrays, dimension lists given '
         'fastest first (or a bare Dimension), with/without parameter dictionaries and extra datasets (lists, arrays, '
         'dask arrays), a pre-existing file at the output path or none, and one (sometimes two) invalidities out of: '
         'non-string argument, data that is not an array / not 2D, dimension lists of the wrong type or whose sizes do not '
@@ -31,7 +31,7 @@ ARRAY_BAD = ['nonstr', 'data_list', 'data_1d', 'data_3d', 'pos_badtype', 'spec_b
 # ---------------------------------------------------------------- generation
 def _gen_array(rng, i):
     while True:
-        ds = gen.gen_dataset(rng, max_dims=3, max_size=4, dtypes=('f8', 'f4', 'i4'), long_prob=0.12)
+        ds = gen.gen_dataset(rng, max_dims=3, max_size=4, dtypes=('f8', 'f4', 'i4'), long_prob=0.12, unsorted_prob=0.25)
         if gen.n_points(ds['pos']) * gen.n_points(ds['spec']) <= 300:
             break
     bad = []
@@ -46,7 +46,9 @@ def _gen_array(rng, i):
     return {'kind': 'array', 'ds': ds, 'input': rng.choice(['numpy', 'numpy', 'dask']), 'bad': sorted(set(bad)),
             'parms': rng.choice([None, {}, {'a': 1, 'b': 'text'}, {'gain': 2.5, 'mode': 'fast', 'n': 3}]),
             'extras': extras, 'preexisting': rng.random() < 0.4,
-            'bare_dim': rng.random() < 0.3}
+            'bare_dim': rng.random() < 0.3,
+            # lazy input in several chunks; h5py keyword arguments handed through to the main dataset
+            'multichunk': rng.random() < 0.5, 'kw': rng.choice([None, None, 'dtype', 'compression', 'both'])}
 
 
 def _gen_image(rng, i, h=None, w=None):
@@ -76,9 +78,12 @@ def _gen_sidpy(rng, i, types=None, shape=None):
         v = [rng.randint(-8, 8)]
         for _ in range(shape[d] - 1):
             v.append(v[-1] + rng.randint(1, 6))
+        if rng.random() < 0.25:            # axis values that are not increasing
+            v = v[::-1] if rng.random() < 0.5 else rng.sample(v, len(v))
         values.append(v)
     return {'kind': 'sidpy', 'types': list(types), 'shape': list(shape), 'values': values,
-            'dest': rng.choice(['group', 'group', 'file'])}
+            'dest': rng.choice(['group', 'group', 'file']), 'verbose': rng.random() < 0.2,
+            'chunked': rng.random() < 0.3}
 
 
 def generate(seed, tier):
@@ -192,7 +197,7 @@ def _array_args(inp):
         raw = raw.reshape(n, m, 1)
         desc['data'] = {'k': 'array', 'rank': 3}
     if inp['input'] == 'dask' and 'data_list' not in bad:
-        raw = da.from_array(raw, chunks=raw.shape)
+        raw = da.from_array(raw, chunks=(tuple(max(1, (x + 1) // 2) for x in raw.shape) if inp.get('multichunk') else raw.shape))
 
     def dims(side, key):
         out, d_desc = [], []
@@ -247,8 +252,13 @@ def _run_array(inp, work):
             fh.write(b'OLD CONTENT')
     before = _path_state(path)
     with quiet():
+        kw = {}
+        if inp.get('kw') in ('dtype', 'both'):
+            kw['dtype'] = np.float32          # tokens are whole numbers below 2^24: exact in single precision
+        if inp.get('kw') in ('compression', 'both'):
+            kw['compression'] = 'gzip'
         r = call(ArrayTranslator().translate, path, 'MyData', raw, quantity, 'nA', pos, spec,
-                 translator_name='MyTranslator', parm_dict=inp['parms'], extra_dsets=extras)
+                 translator_name='MyTranslator', parm_dict=inp['parms'], extra_dsets=extras, **kw)
     out = {'before': before, 'after': _path_state(path), 'desc': desc}
     if r[0] == 'err':
         out['err'], out['cls'] = r[1], r[2]
@@ -427,7 +437,10 @@ def _run_sidpy(inp, work):
     from pyUSID.io.hdf_utils import write_sidpy_dataset
     shape = inp['shape']
     arr = np.arange(int(np.prod(shape)), dtype=np.float64).reshape(shape)
-    ds = sidpy.Dataset.from_array(arr, name='Thing')
+    if inp.get('chunked') and arr.size > 1:
+        ds = sidpy.Dataset.from_array(arr, name='Thing', chunks=tuple(max(1, (x + 1) // 2) for x in arr.shape))
+    else:
+        ds = sidpy.Dataset.from_array(arr, name='Thing')
     ds.quantity, ds.units = 'Current', 'nA'
     for i, t in enumerate(inp['types']):
         ds.set_dimension(i, sidpy.Dimension(np.array(inp['values'][i]) / 4.0, name='ax%d' % i, units='u%d' % i,
@@ -436,7 +449,7 @@ def _run_sidpy(inp, work):
     with h5py.File(os.path.join(work, 's.h5'), 'w') as f:
         g = f.create_group('G') if inp['dest'] == 'group' else f
         with quiet():
-            r = call(write_sidpy_dataset, ds, g)
+            r = call(write_sidpy_dataset, ds, g, verbose=True) if inp.get('verbose') else call(write_sidpy_dataset, ds, g)
         if r[0] == 'err':
             out['err'], out['cls'] = r[1], r[2]
             return out
